@@ -71,7 +71,7 @@ CHECKS.update({
 EXTRA = {
  "C01": "Also --threads {unset,1,2,4,7}, BCF dictionaries with GT above index 127 or without IDX attributes, lone-dot genotypes, duplicate positions, non-ASCII sample names, input files under customary / neutral / contradicting names, and four-population spectra of 5 103..6 561 cells. Populations of 100..330 samples whose per-record ALT and called counts pass 127, 255, 256 (one-byte tallies). Contigs named exactly X, Y, MT, chrX, chrM, W, Z.",
  "C02": "Precisions up to 40 (and 100) with the decimal count checked. Large cohorts include rare-variant records (1..5 minor alleles, or nearly fixed) and tiny targets (1..6 chromosomes); a long-stream part (16..34 samples, 300..1400 records with ever-changing called/ALT pairs, targets 1..10) compares every cell with the model.",
- "C03": "Large one-axis cases are sparse or dense (every source row in one projection, target n/4..n); spectra of 4 160..8 910 cells in 2..4 axes; the laws are repeated on the normalised (Sfs) type-state.",
+ "C03": "Large one-axis cases are sparse or dense (every source row in one projection, target n/4..n); spectra of 4 160..8 910 cells in 2..4 axes; the laws are repeated on the normalised (Sfs) type-state. The library's public coefficient utils::hypergeometric_pmf itself against the oracle for population sizes up to 12 000 chromosomes (support, sum, every k).",
  "C04": "Shapes whose rows pass 4096/8192 elements; genome-scale fractional totals; duplicates at every list position, for -m and -M alike; the normalised (Sfs) type-state.",
  "C05": "Spectra of 4 097..8 910 entries; each spectrum folded again on the normalised (Sfs) type-state and with NaN / +-inf entries, which must propagate and never be replaced by the fill. One Folded unfolded seven times with changing fills, and a clone of it made midway.",
  "C06": "Estimator formulas also for 511..513, 1023..1025, 4096/4097 and up to 5000 chromosomes. Several statistics in one invocation with a frequency-based one before, between and behind the scale-dependent ones, each value against its definition.",
